@@ -45,6 +45,18 @@ way, plus histories of TWO walks on ONE loader (scan / update / keep-going verif
 directory, then from the root).  Every walk is judged on its own: with crossing disallowed it
 must raise ManifestCrossDevice iff the reference walk from its start meets a non-IGNOREd foreign
 object, whatever Manifests were loaded before.
+
+Family V ("single-path APIs") runs the entry points of the loader that look at ONE path instead of
+walking a directory - verify_path, assert_path_verifies, update_entry_for_path (+ save_manifests) -
+over the foreign-device trees: called on the foreign object itself (a file, or a directory standing
+in the place of a file), on a file / directory / missing name beneath a foreign directory, on a
+home-device file reached through the foreign directory, on the home-device files of the tree and
+on a missing name next to the foreign object; with the entry present / stale / absent, kept in the
+top-level Manifest or in a registered sub-Manifest inside the foreign directory; IGNOREd (on the
+path, on each directory above it) or not; allow_xdev on / off.  Oracle = the same sentence of the
+property: the object named by the path is on another device, not IGNOREd, crossing disallowed =>
+ManifestCrossDevice, neither a verdict nor a written entry; otherwise the ordinary single-path
+verdict derived from the model (entry and content agree / differ / stray / vanished).
 """
 
 import contextlib
@@ -126,10 +138,22 @@ RULE = (
     'plus, for n <= 3, allow_xdev off, no IGNORE, {unregistered, registered} (quick, n = 3: plain only), ALL '
     'two-call histories on ONE loader: (op1 from every directory) ; (op2 from the tree root), op in {scan = '
     'load_unregistered_manifests, update = update_entries_for_directory, verify = assert_directory_verifies with a '
-    'handler returning False}, nothing saved.  A case = (family, shape, link set, IGNORE variant, start, foreign '
+    'handler returning False}, nothing saved.  Family V (single-path APIs; n = 1..3 quick / 1..4 thorough, no '
+    'in-forest link): foreign kind {dir, dirsub, empty, file, back} held by every directory x TARGET path {the '
+    'foreign object itself "x"; beneath a foreign directory: its file "x/g", (dirsub) its sub-directory "x/s" and '
+    'the file "x/s/g2", (back) the home-device file "x/back/f" reached through it, a missing name "x/nope"; the '
+    'file "f" of EVERY directory of the tree (the one next to x and all others); a missing name next to x} x '
+    'entry state {present = correct DATA entry (regular files only); stale = DATA entry with another size and '
+    'digest; absent} x entry location {top-level Manifest; for targets beneath a foreign directory also a valid, '
+    'registered sub-Manifest "x/Manifest" that lists the files beneath x} x IGNORE {none; on the sibling (the file '
+    'next to x for targets at or beneath x, x itself for the others); on EVERY prefix of the target path incl. the '
+    'path itself (= x, the directories at or above the holder, x/s ...); a covered target has no entry, prefixes '
+    'covering the sub-Manifest are not combined with it} x allow_xdev {on, off} x API {verify_path, '
+    'assert_path_verifies, update_entry_for_path + save_manifests (not for IGNOREd targets and not for a missing '
+    'target without entry: documented preconditions)}.  A case = (family, shape, link set, IGNORE variant, start, foreign '
     'placement, pair + holder + loop target + listing order, allow_xdev, walker, root spelling, sub-Manifest '
-    'placement/compression/state, history); distinct by construction (finish() checks digests == executions and the '
-    'execution counts of families P, R and U against a re-enumeration).  Non-trivial = at '
+    'placement/compression/state, history, target path + entry state/location); distinct by construction (finish() '
+    'checks digests == executions and the execution counts of families P, R, U and V against a re-enumeration).  Non-trivial = at '
     'least one directory symlink or foreign object is present and the reference verdict is definite.')
 ASSUMPTIONS = [
     'ref_walk() is an independent restatement of the statement (DFS, identities of the directories on the '
@@ -176,6 +200,24 @@ ASSUMPTIONS = [
     'Manifest lists (unregistered state): stray-file mismatch vs. cross-device error, no precedence stated',
     'family P observes listing-order dependence only through os.scandir order (what os.walk hands to the '
     'walkers as dirnames); three or more adjacent prunable entries are not enumerated',
+    'family V: what a path names (regular file / directory / nothing; on the home or the foreign device; reached through '
+    'a foreign directory) is derived from the model by resolve() and cross-checked against os.stat of the materialised '
+    'tree by disk_resolve() (every case quick, every 8th thorough).  Reference verdict: IGNOREd path => accepted '
+    '(verify_path returns a true first element, assert_path_verifies returns); object on the foreign device, not '
+    'IGNOREd, crossing disallowed => ManifestCrossDevice and the Manifest on disk unchanged; otherwise the ordinary '
+    'verdict: accepted iff (regular file, entry present with the SHA1 and size of its content) or (nothing there, no '
+    'entry), else rejected (verify_path: false first element; assert_path_verifies: ManifestMismatch); a successful '
+    'update_entry_for_path + save_manifests leaves exactly the other entries plus a correct DATA entry for an existing '
+    'regular file / no entry for a vanished one (union of top-level and sub-Manifest), and a fresh loader accepts the '
+    'path.  DONT_CARE (an outcome outside the stated alternatives is still reported): a foreign object WITHOUT entry '
+    'under verify_path / assert_path_verifies with crossing disallowed (stray-file rejection or cross-device error, no '
+    'precedence stated; accepting it is a violation); a path that leads THROUGH a foreign directory to something that is '
+    'not itself on the foreign device (the home-device file x/back/f, the missing name x/nope) with crossing disallowed '
+    '(cross-device error or the ordinary verdict; whether a Manifest was written is not judged there); '
+    'update_entry_for_path of a DIRECTORY when the cross-device rule does not apply (documented precondition "regular '
+    'file"; only ManifestCrossDevice is excluded).  The diff list of verify_path, the attributes of the exceptions, '
+    'whether the loading of the foreign sub-Manifest itself should already raise, and single-path calls combined with '
+    'in-forest links, root spellings or earlier calls on the same loader are not judged / not enumerated',
 ]
 
 TOP = 'Manifest'
@@ -193,8 +235,8 @@ WALKERS_S = ('verify_strict', 'verify_keepgoing', 'unregistered', 'update')
 WALKERS_X = WALKERS_L + ('cli_verify', 'cli_verify_k', 'cli_update')
 WALKERS_XS = ('verify_strict', 'verify_keepgoing', 'unregistered', 'update')    # library only: `gemato verify
 # ROOT/p/x` looks for the top-level Manifest above the link TARGET (C15's subject), not above ROOT/p
-MAX_N = {'quick': {'L': 4, 'S': 3, 'X': 3, 'P': 3, 'R': 2, 'RX': 2, 'U': 3, 'UH': 3},
-         'thorough': {'L': 5, 'S': 4, 'X': 4, 'P': 4, 'R': 3, 'RX': 3, 'U': 4, 'UH': 3}}
+MAX_N = {'quick': {'L': 4, 'S': 3, 'X': 3, 'P': 3, 'R': 2, 'RX': 2, 'U': 3, 'UH': 3, 'V': 3},
+         'thorough': {'L': 5, 'S': 4, 'X': 4, 'P': 4, 'R': 3, 'RX': 3, 'U': 4, 'UH': 3, 'V': 4}}
 # R = trees run under every root spelling (n = R+1: only the spellings through a directory at depth n-1);
 # RX = the same for foreign placements; U = sub-Manifest family, UH = its two-call histories
 RX_KINDS = {'quick': ('dir', 'file', 'back'), 'thorough': KINDS}     # family R, foreign placements
@@ -211,6 +253,13 @@ U_SINGLES = (('update', False), ('update', True), ('cli_update', False), ('cli_u
              ('verify_strict', True), ('verify_keepgoing', True), ('cli_verify', True))   # (walker, sub-Manifest registered)
 HIST_OPS = ('scan', 'update', 'verify')
 SUBM_NAMES = tuple(TOP + ('.' + c if c else '') for c in SUBM_COMPS)
+# family V: the single-path entry points of the loader
+V_KINDS = ('dir', 'dirsub', 'empty', 'file', 'back')      # ('ino' is the same tree as 'dir' for an API that does not walk)
+V_APIS = ('verify_path', 'assert_path_verifies', 'update_entry_for_path')
+V_VERIFY = ('verify_path', 'assert_path_verifies')
+V_BENEATH = ('below', 'xsub', 'below2', 'back', 'xmissing')     # targets beneath the foreign directory
+V_STALE = b'old-content-of-another-length'
+V_MISSING = 'nope'
 
 # family P: item = prune prefix ('' plain | 'I' IGNOREd | 'H' dot-named) + kind letter
 #   L link back to an ancestor (loop)   S link to a sibling directory (no loop)
@@ -1102,7 +1151,7 @@ class Case:
     """Everything that identifies one execution."""
 
     def __init__(self, fam, parents, links, hidden, ignores, ilabel, start, foreign, allow_xdev, walker, seed,
-                 pair=None, order=None, spell=None, subm=None, hist=None):
+                 pair=None, order=None, spell=None, subm=None, hist=None, target=None, entry=None):
         self.fam = fam
         self.parents = tuple(parents)
         self.links = tuple(links)
@@ -1119,6 +1168,8 @@ class Case:
         self.spell = spell          # family R: root spelling (None = canonical absolute)
         self.subm = subm            # family U: {'at', 'comp', 'reg'}
         self.hist = [tuple(h) for h in hist] if hist else None      # family U, walker 'hist': [(op, start node)]
+        self.target = target        # family V: label of the path handed to the single-path API (v_target_path)
+        self.entry = entry          # family V: 'present' | 'stale' | 'absent', + '@sub' = kept in the sub-Manifest x/Manifest
 
     def model(self):
         return Model(self.parents, self.links, names_for(self.seed, len(self.parents)), self.hidden, self.foreign,
@@ -1140,6 +1191,8 @@ class Case:
         if self.subm is not None:
             sm = self.subm
             d += (('subm', sm['at'], sm['comp'], sm['reg']), self.order, self.hist)
+        if self.target is not None:
+            d += (('path', self.target, self.entry),)
         return d
 
     def to_json(self):
@@ -1148,7 +1201,8 @@ class Case:
                 'ignores': list(self.ignores), 'ilabel': self.ilabel, 'start': self.start,
                 'foreign': self.foreign, 'allow_xdev': self.allow_xdev, 'walker': self.walker,
                 'seed': self.seed, 'pair': self.pair, 'order': self.order, 'spell': self.spell,
-                'subm': self.subm, 'hist': [list(h) for h in self.hist] if self.hist else None}
+                'subm': self.subm, 'hist': [list(h) for h in self.hist] if self.hist else None,
+                'target': self.target, 'entry': self.entry}
 
     @classmethod
     def from_json(cls, j):
@@ -1156,7 +1210,7 @@ class Case:
                    [(None if x == -1 else x) for x in j['links']], j.get('hidden', ()), j.get('ignores', ()),
                    j.get('ilabel', '?'), j.get('start', 0), j.get('foreign'), j.get('allow_xdev', True),
                    j['walker'], j.get('seed', 0), j.get('pair'), j.get('order'), j.get('spell'),
-                   j.get('subm'), j.get('hist'))
+                   j.get('subm'), j.get('hist'), j.get('target'), j.get('entry'))
 
     def text(self, model):
         return (f'{model.text()}  IGNORE {list(self.ignores)}  start={model.path_of(self.start)!r} '
@@ -1164,7 +1218,9 @@ class Case:
                 + (' history=' + ' ; '.join(f'{op}({model.path_of(st)!r})' for op, st in self.hist)
                    if self.hist else '')
                 + (f' listing={self.order}' if self.order else '')
-                + (f' root-spelling={self.spell}' if self.spell else ''))
+                + (f' root-spelling={self.spell}' if self.spell else '')
+                + (f' path={v_target_path(model, self.target)!r} ({self.target}; entry {self.entry})'
+                   if self.target else ''))
 
 
 UNLISTED = ('keep-going verify meets a foreign regular file that no loaded Manifest lists (unregistered sub-Manifest): '
@@ -1295,6 +1351,8 @@ def judge_history(case, model, ignores, results, calls, limit, viol):
 
 def check_case(case, disk, stats=None, crosscheck=True):
     """Materialise the links of ``case`` on ``disk``, run its walker, judge.  -> (violation|None, info)"""
+    if case.fam == 'V':
+        return check_path_case(case, disk, stats, crosscheck)
     model = case.model()
     ignores = set(case.ignores)
     start = case.start
@@ -1515,6 +1573,376 @@ def judge_written(case, model, ref, disk, after, ign, outside, start_rel, limit,
     return None
 
 
+# ---------------------------------------------------------------- family V: single-path APIs
+
+def v_targets(model):
+    """Labels of the paths family V hands to the single-path APIs for this foreign placement."""
+    kind = model.foreign['kind']
+    out = ['xobj']
+    if kind in ('dir', 'dirsub', 'back'):
+        out.append('below')
+    if kind == 'dirsub':
+        out += ['xsub', 'below2']
+    if kind == 'back':
+        out.append('back')
+    if kind != 'file':
+        out.append('xmissing')
+    out += [f'home:{i}' for i in range(model.n)]
+    out.append('missing')
+    return out
+
+
+def v_target_path(model, label):
+    hp = model.rpath[model.foreign['at']]
+    if label.startswith('home:'):
+        return _j(model.rpath[int(label[5:])], 'f')
+    return _j(hp, {'xobj': 'x', 'below': 'x/g', 'xsub': 'x/s', 'below2': 'x/s/g2', 'back': 'x/back/f',
+                   'xmissing': 'x/' + V_MISSING, 'missing': V_MISSING}[label])
+
+
+def resolve(model, relpath):
+    """What ``relpath`` (relative to the tree root) names, from the model alone:
+    -> (what, payload, foreign, through) with what = 'file' (payload = content) | 'dir' (payload = identity) |
+    'missing'; foreign = the named object is on the second filesystem; through = the path passes a
+    directory on the second filesystem before it gets there."""
+    node = 0
+    through = False
+    comps = relpath.split('/')
+    for i, comp in enumerate(comps):
+        found = [(kind, payload) for name, kind, payload in model.children(node) if name == comp]
+        if not found:
+            return 'missing', None, False, through
+        kind, payload = found[0]
+        last = i == len(comps) - 1
+        if kind == 'dir':
+            if last:
+                return 'dir', payload, model.is_foreign(payload), through
+            node = payload
+            through = through or model.is_foreign(node)
+        elif kind in ('file', 'xfile'):
+            if not last:
+                raise HarnessError(f'{relpath!r} goes through the regular file {comp!r}')
+            return 'file', payload, kind == 'xfile', through
+        else:
+            raise HarnessError(f'{relpath!r} names a Manifest')
+    raise HarnessError('empty path')
+
+
+def disk_resolve(root, relpath):
+    """The same from the materialised tree: os.stat and st_dev."""
+    home = os.stat(root).st_dev
+    through = False
+    p = root
+    for comp in relpath.split('/')[:-1]:
+        p = os.path.join(p, comp)
+        try:
+            through = through or os.stat(p).st_dev != home
+        except FileNotFoundError:
+            break
+    full = os.path.join(root, relpath)
+    try:
+        st = os.stat(full)
+    except FileNotFoundError:
+        return 'missing', None, False, through
+    if os.path.isdir(full):
+        return 'dir', None, st.st_dev != home, through
+    with open(full, 'rb') as f:
+        return 'file', f.read(), st.st_dev != home, through
+
+
+def v_ignore_variants(model, label):
+    """-> [(label, ignore paths)]: none; the sibling of the target; every prefix of the target path."""
+    path = v_target_path(model, label)
+    hp = model.rpath[model.foreign['at']]
+    beside = _j(hp, 'f') if (label == 'xobj' or label in V_BENEATH) else _j(hp, 'x')
+    comps = path.split('/')
+    out = [('none', ()), ('beside', (beside,))]
+    for k in range(1, len(comps) + 1):
+        out.append((f'pre:{k}', ('/'.join(comps[:k]),)))
+    return out
+
+
+def v_runs(model):
+    """Everything family V runs for one foreign placement:
+    -> (target label, IGNORE label, ignore paths, entry state[@sub], allow_xdev, API)"""
+    xpath = _j(model.rpath[model.foreign['at']], 'x')
+    for label in v_targets(model):
+        path = v_target_path(model, label)
+        what = resolve(model, path)[0]
+        states = {'file': ('present', 'stale', 'absent'), 'dir': ('stale', 'absent'),
+                  'missing': ('stale', 'absent')}[what]
+        for ilabel, ignores in v_ignore_variants(model, label):
+            covered = any(under(path, ig) for ig in ignores)
+            for loc in (('', '@sub') if label in V_BENEATH else ('',)):
+                if loc and any(under(xpath, ig) for ig in ignores):
+                    continue            # the sub-Manifest itself would be IGNOREd
+                for st in (('absent',) if covered else states):
+                    for axd in (True, False):
+                        for api in V_APIS:
+                            if api == 'update_entry_for_path' and (covered or (what == 'missing' and st == 'absent')):
+                                continue        # documented preconditions of update_entry_for_path
+                            yield label, ilabel, ignores, st + loc, axd, api
+
+
+V_OPEN_STRAY = ('single-path verify of a foreign object that no Manifest lists, crossing disallowed: stray-file '
+                'rejection or cross-device error, the statement gives no precedence')
+V_OPEN_THROUGH = ('single path that leads through a foreign directory to something not on the foreign device, crossing '
+                  'disallowed: cross-device error or the ordinary verdict')
+V_OPEN_UPDATE_DIR = 'update_entry_for_path of a directory (precondition: regular file); only the cross-device error is excluded'
+
+
+def v_expect(case, what, foreign, through, covered):
+    """-> (allowed outcome classes, reason when more than one, class of the case for the bookkeeping).
+    Outcome classes: ok | fail (false verdict / ManifestMismatch) | xdev | other (another gemato exception)."""
+    api = case.walker
+    st = case.entry.split('@')[0]
+    if api in V_VERIFY:
+        if what == 'file':
+            ordinary = 'ok' if st == 'present' else 'fail'
+        elif what == 'dir':
+            ordinary = 'fail'
+        else:
+            ordinary = 'ok' if st == 'absent' else 'fail'
+    else:
+        ordinary = None if what == 'dir' else 'ok'
+    if covered:
+        return {'ok'}, None, 'ignored_foreign' if foreign else 'ignored_through' if through else 'ignored_home'
+    if foreign and not case.allow_xdev:
+        if api in V_VERIFY and st == 'absent':
+            return {'xdev', 'fail'}, V_OPEN_STRAY, 'foreign'
+        return {'xdev'}, None, 'foreign'
+    if through and not case.allow_xdev:
+        return ({'xdev', ordinary} if ordinary else {'xdev', 'ok', 'other'}), V_OPEN_THROUGH, 'through'
+    cls = 'foreign' if foreign else 'through' if through else 'home'
+    if ordinary is None:
+        return {'ok', 'other'}, V_OPEN_UPDATE_DIR, cls
+    return {ordinary}, None, cls
+
+
+def v_manifests(case, model, target, what, payload, ignores, disk):
+    """Write the Manifest(s) a family-V case starts from.  -> (text of the top-level Manifest, entries that must
+    be there after a successful update [tree-root namespace, without MANIFEST/TIMESTAMP])"""
+    st, _, loc = case.entry.partition('@')
+    listing = ref_walk(model, 0, ignores, True)
+    files = {p: d for p, d in listing.files.items() if p != target}
+    ign = ignore_entries(ignores)
+    if st == 'present':
+        if what != 'file':
+            raise HarnessError('entry state "present" needs a regular file')
+        tent = [rm.file_entry('DATA', target, payload, HASHES)]
+    elif st == 'stale':
+        tent = [rm.file_entry('DATA', target, V_STALE, HASHES)]
+    else:
+        tent = []
+    after = ign + data_entries(files) + ([rm.file_entry('DATA', target, payload, HASHES)] if what == 'file' else [])
+    if not loc:
+        top = rm.write(ign + data_entries(files) + tent)
+    else:
+        xdir = _j(model.rpath[model.foreign['at']], 'x')
+        if not under(target, xdir) or target == xdir:
+            raise HarnessError('a sub-Manifest entry needs a target beneath the foreign directory')
+
+        def cut(e):
+            return (e[0], e[1][len(xdir) + 1:]) + tuple(e[2:])
+        sub = [cut(e) for e in data_entries({p: d for p, d in files.items() if under(p, xdir)}) + tent]
+        data = rm.write(sub).encode('utf8')
+        spath = _j(xdir, TOP)
+        disk.write_subm(spath, data)
+        top = rm.write(ign + data_entries({p: d for p, d in files.items() if not under(p, xdir)})
+                       + [rm.file_entry('MANIFEST', spath, data, HASHES)])
+    disk.write_manifest(top)
+    return top, after
+
+
+def execute_path(api, top, target, allow_xdev, limit):
+    kw = {} if allow_xdev else {'allow_xdev': False}
+    if api == 'verify_path':
+        def fn():
+            return grl.ManifestRecursiveLoader(top, **kw).verify_path(target)
+    elif api == 'assert_path_verifies':
+        def fn():
+            return grl.ManifestRecursiveLoader(top, **kw).assert_path_verifies(target)
+    elif api == 'update_entry_for_path':
+        def fn():
+            m = grl.ManifestRecursiveLoader(top, hashes=list(HASHES), **kw)
+            m.update_entry_for_path(target)
+            m.save_manifests()
+    else:
+        raise ValueError(api)
+    _ERRS.items = []
+    with budget(limit, False) as b:
+        o = gem.call(fn)
+    _ERRS.items = []
+    return o, b.calls
+
+
+def v_outcome(api, o):
+    """-> (outcome class, text)"""
+    if o['kind'] == 'ret':
+        v = o['value']
+        if api == 'verify_path':
+            if isinstance(v, tuple) and len(v) == 2 and isinstance(v[0], bool):
+                return ('ok', 'returned (True, ...)') if v[0] else ('fail', 'returned (False, ...)')
+            return 'odd', f'returned {v!r}'
+        return ('ok', 'returned') if v is None else ('odd', f'returned {v!r}')
+    if o['exc'] == 'ManifestCrossDevice':
+        return 'xdev', 'ManifestCrossDevice'
+    if o['exc'] == 'ManifestMismatch':
+        return 'fail', 'ManifestMismatch'
+    if o.get('class') == 'gemato':
+        return 'other', o['exc']
+    if o.get('class') == 'oserror':
+        return 'oserror', f'{o["exc"]}:{errno.errorcode.get(o.get("errno"), o.get("errno"))}'
+    return 'internal', o['exc']
+
+
+def v_object(what, foreign, label):
+    if label in ('below', 'below2'):
+        return 'file_below_foreign_dir'
+    return ('foreign_' if foreign else 'home_') + what
+
+
+def check_path_case(case, disk, stats=None, crosscheck=True):
+    """Family V: one call of a single-path API.  -> (violation|None, info)"""
+    model = case.model()
+    ignores = set(case.ignores)
+    api = case.walker
+    target = v_target_path(model, case.target)
+    what, payload, foreign, through = resolve(model, target)
+    covered = any(under(target, ig) for ig in ignores)
+    limit = limit_for(model.ndirs())
+    disk.apply(model)
+    allowed, reason, vcls = v_expect(case, what, foreign, through, covered)
+    before, want_after = v_manifests(case, model, target, what, payload, ignores, disk)
+    if crosscheck:
+        dk = disk_resolve(disk.root, target)
+        if dk != (what, payload if what == 'file' else None, foreign, through):
+            raise HarnessError(f'model and materialised tree disagree about {target!r}: '
+                               f'{(what, payload, foreign, through)} vs {dk} for {case.text(model)}')
+    top = os.path.join(disk.root, TOP)
+    spath = _j(_j(model.rpath[model.foreign['at']], 'x'), TOP) if case.entry.endswith('@sub') else None
+    sub_before = disk.read_subm(spath) if spath else None
+    o, calls = execute_path(api, top, target, case.allow_xdev, limit)
+    got, got_text = v_outcome(api, o)
+    after = disk.read_manifest()
+    sub_after = disk.read_subm(spath) if spath else None
+    verdict = 'must' if len(allowed) == 1 else 'dontcare'
+    info = {'ref': None, 'verdict': verdict, 'must': allowed, 'got': got, 'calls': calls, 'limit': limit,
+            'model': model, 'root': disk.root, 'vcls': vcls, 'target_path': target,
+            'object': v_object(what, foreign, case.target)}
+
+    def viol(sig, msg):
+        return {'sig': dict(sig, walker=api), 'case': case.to_json(), 'message': f'{msg} :: {case.text(model)}'}
+
+    names = {'ok': 'accepted', 'fail': 'rejected (false verdict / ManifestMismatch)', 'xdev': 'ManifestCrossDevice',
+             'other': 'another gemato exception'}
+    want_text = ' or '.join(names[a] for a in sorted(allowed))
+    where = ('the foreign object itself' if case.target == 'xobj' else
+             'beneath the foreign directory' if through else 'on the home device')
+    v = None
+    if got == 'internal' or o.get('exc') in ('BudgetExceeded', 'HardTimeout'):
+        res = _lib_res(o, False, spelled(None, disk, model, 0, ''), disk)
+        v = termination_violation(res, calls, limit, Ref(), lambda sig, msg: viol(sig, msg), brief(res))
+    elif got in allowed:
+        if got == 'ok' and api == 'update_entry_for_path' and what != 'dir':
+            v = v_judge_written(case, model, disk, after, want_after, target, what, limit, viol, stats)
+        elif got != 'ok' and (after != before or sub_after != sub_before) and reason != V_OPEN_THROUGH:
+            v = viol({'check': 'manifest_written_despite_error', 'got': got},
+                     'a Manifest on disk changed although the operation failed')
+    elif got == 'xdev':
+        why = 'IGNOREd' if covered else 'on another device, but crossing is allowed' if foreign or through \
+            else 'not on another device'
+        v = viol({'check': 'false_xdev', 'target': info['object']},
+                 f'reference: {target!r} is {why} => {want_text}; {api}: {got_text} for '
+                 f'{tree_rel(o.get("path"), spelled(None, disk, model, 0, ""), disk)!r}')
+    elif allowed == {'xdev'} or reason == V_OPEN_STRAY:
+        v = viol({'check': 'xdev_not_reported', 'got': got, 'target': info['object']},
+                 f'reference: {target!r} ({where}) is a {what} on another device, not IGNOREd, crossing disallowed => '
+                 f'{want_text}; {api}: {got_text}')
+    else:
+        v = viol({'check': 'single_path_verdict_wrong', 'got': got, 'target': info['object']},
+                 f'reference: {target!r} ({where}; {what}, entry {case.entry}{", IGNOREd" if covered else ""}) => '
+                 f'{want_text}; {api}: {got_text}')
+    if stats is not None:
+        stats.evaluations += 1
+        stats.transitions += 1
+        if verdict == 'must':
+            stats.compared += 1
+            cls = next(iter(allowed))
+        else:
+            stats.dontcare[reason] += 1
+            cls = 'dontcare'
+        stats.outcomes[f'{api}/{cls}/{got}'] += 1
+        stats.counters['budget_use_lt10'] += 1
+        if v:
+            stats.violation(v['sig'], v['case'], v['message'])
+    return v, info
+
+
+def v_judge_written(case, model, disk, after, want_after, target, what, limit, viol, stats):
+    """After a successful update_entry_for_path + save_manifests: the Manifests (top-level + sub-Manifest, paths
+    re-based to the tree root) hold exactly the other entries and a correct entry for an existing regular file /
+    none for a vanished one; a fresh loader accepts the path."""
+    if after is None:
+        return viol({'check': 'no_manifest_written'}, 'operation succeeded but there is no Manifest')
+    st, ents = rm.parse(after)
+    if st != 'ok':
+        return viol({'check': 'written_manifest_unparsable', 'why': str(ents)}, f'reference parser: {st} {ents}')
+    if case.entry.endswith('@sub'):
+        xdir = _j(model.rpath[model.foreign['at']], 'x')
+        raw = disk.read_subm(_j(xdir, TOP))
+        st2, sub = rm.parse(raw.decode('utf8')) if raw is not None else ('gone', ())
+        if st2 != 'ok':
+            return viol({'check': 'written_manifest_unparsable', 'why': 'sub-Manifest ' + st2},
+                        f'sub-Manifest {_j(xdir, TOP)} after the update: {st2}')
+        ents = [e for e in ents if e[0] != 'MANIFEST'] + [
+            (e[0], _j(xdir, e[1])) + tuple(e[2:]) for e in sub if e[0] not in ('MANIFEST', 'TIMESTAMP')]
+    want = sorted(want_after, key=repr)
+    have = sorted((e for e in ents if e[0] != 'TIMESTAMP'), key=repr)
+    if have != want:
+        wp = {(e[0], e[1]) for e in want}
+        hp = {(e[0], e[1]) for e in have}
+        missing = sorted(p for _t, p in wp - hp)
+        extra = sorted(p for _t, p in hp - wp)
+        what_ = 'missing' if missing and not extra else 'extra' if extra and not missing else \
+            'missing+extra' if missing else 'wrong_data_or_duplicate'
+        return viol({'check': 'written_entries_wrong', 'what': what_},
+                    f'written Manifest: missing {missing[:4]}, unexpected {extra[:4]}')
+    kw = {} if case.allow_xdev else {'allow_xdev': False}
+    with budget(limit, False):
+        o = gem.call(lambda: gem.loader(disk.root, **kw).assert_path_verifies(target))
+    if stats is not None:
+        stats.transitions += 1
+    if not (o['kind'] == 'ret' and o['value'] is None):
+        return viol({'check': 'fresh_verify_fails', 'got': gem.brief(o)},
+                    f'{target!r} does not verify after the update: {gem.brief(o)} {o.get("path")!r}')
+    return None
+
+
+def book_v(stats, case, info):
+    """Family V vacuity bookkeeping."""
+    c = stats.counters
+    c['family_V_executions'] += 1
+    xd = 'on' if case.allow_xdev else 'off'
+    loc = 'sub' if case.entry.endswith('@sub') else 'top'
+    if info['verdict'] != 'must':
+        c[f'V_open/{info["vcls"]}/{case.walker}'] += 1
+        return
+    exp = next(iter(info['must']))
+    c[f'V/{case.walker}/{xd}/{info["vcls"]}/{exp}'] += 1
+    if exp == 'xdev':
+        c[f'V_xdev_target/{case.target}/{case.walker}'] += 1
+        c[f'V_xdev_entry/{case.entry}/{case.walker}'] += 1
+        c[f'V_xdev_object/{info["object"]}'] += 1
+        if case.ilabel != 'none':
+            c['V_xdev_with_unrelated_ignore'] += 1
+    c[f'V_loc/{loc}/{exp}'] += 1
+    if len(stats.samples) < 1 and exp == 'xdev' and case.walker == 'verify_path' and case.target == 'below' \
+            and case.entry == 'present':
+        stats.sample({'case': case.text(info['model']), 'path_handed_to_the_api': info['target_path'],
+                      'names': info['object'], 'expected': 'ManifestCrossDevice', 'gemato': info['got']})
+
+
 # ---------------------------------------------------------------- features (vacuity bookkeeping)
 
 def features(model, ref):
@@ -1716,6 +2144,12 @@ def u_runs(tier, n):
                                 yield kind, comp, reg, order, 'none', False, 'hist', ((op1, s1), (op2, 0))
 
 
+def v_placements(tier):
+    """-> [(n, shape index, holder of the foreign object, kind)] of family V"""
+    return [(n, si, at, kind) for n in range(1, MAX_N[tier]['V'] + 1) for si, _p in enumerate(shapes(n))
+            for at in range(n) for kind in V_KINDS]
+
+
 def u_order(case, model):
     """Which of {sub-Manifest, foreign object} a top-down walk under this case's listing order meets
     first (a directory's files are looked at when the directory is visited)."""
@@ -1771,6 +2205,8 @@ def shards(tier, seed):
             for at in range(n):
                 for kind in KINDS:
                     out.append(('X', n, si, (at, kind), len(x_linksets(n, tier)) * 6))
+    for n, si, at, kind in v_placements(tier):
+        out.append(('V', n, si, (at, kind), 40 + 10 * n))
     # tiny trees first (their witnesses are the minimal ones and are retained first), then big shards first
     out.sort(key=lambda s: (s[1] > 2, s[0] != 'L', -s[1]) if s[1] <= 2 else (True, False, -s[4]))
     return [s[:4] for s in out]
@@ -1802,7 +2238,7 @@ def run_shard(spec, tier, seed, scratch):
             if other is None:
                 stats.notes.append('family P: pairs with a foreign link skipped (no second filesystem)')
                 stats.counters['xdev_skipped'] += 1
-        if fam == 'U' or (fam == 'R' and sub[0] == 'X'):
+        if fam in ('U', 'V') or (fam == 'R' and sub[0] == 'X'):
             other = second_fs(scratch)
             if other is None:
                 stats.notes.append(f'family {fam}: foreign placements skipped (no second filesystem)')
@@ -1829,6 +2265,17 @@ def run_shard(spec, tier, seed, scratch):
                     ignores = (_j(Model(parents, nolinks, names).rpath[at], 'x'),) if ilabel == 'x' else ()
                     case = Case(fam, parents, nolinks, (), ignores, ilabel, 0, foreign, axd, walker, seed,
                                 order=order, subm=subm, hist=hist)
+                    serial += 1
+                    v, info = check_case(case, disk, stats, crosscheck=(serial % cross_every == 0))
+                    book(stats, case, info, v)
+                lsets = ()
+            elif fam == 'V':
+                at, kind = sub
+                nolinks = (None,) * n
+                foreign = {'at': at, 'kind': kind}
+                for label, ilabel, ignores, entry, axd, api in v_runs(Model(parents, nolinks, names, (), foreign)):
+                    case = Case(fam, parents, nolinks, (), ignores, ilabel, 0, foreign, axd, api, seed,
+                                target=label, entry=entry)
                     serial += 1
                     v, info = check_case(case, disk, stats, crosscheck=(serial % cross_every == 0))
                     book(stats, case, info, v)
@@ -1899,6 +2346,9 @@ def book(stats, case, info, v):
         book_pair(stats, case, info)
         return
     c['fam_got/%s/%s' % (case.fam, info['got'] if case.hist is None else 'hist')] += 1
+    if case.fam == 'V':
+        book_v(stats, case, info)
+        return
     if case.subm is not None:
         book_u(stats, case, info)
         return
@@ -2189,7 +2639,47 @@ def finish(total, tier):
         want_u = sum(1 for n, _si, _at, _m in u_placements(tier) for _ in u_runs(tier, n))
         if c.get('family_U_executions', 0) != want_u and not total.capped:
             errs.append(f'family U ran {c.get("family_U_executions", 0)} executions, re-enumeration gives {want_u}')
-    for fam in ('R', 'U'):
+    # ---- family V: every API must-raise / accept / reject on the home device, on the foreign device with crossing
+    #      allowed, with an IGNOREd foreign object; every target and entry state among the must-raise cases
+    if have_other:
+        for api in V_APIS:
+            ver = api in V_VERIFY
+            needs = [('off/foreign/xdev', 'foreign object, crossing disallowed: must raise'),
+                     ('on/foreign/ok', 'foreign object accepted with crossing allowed'),
+                     ('on/through/ok', 'path through a foreign directory accepted with crossing allowed'),
+                     ('off/home/ok', 'home-device object accepted in one-file-system mode'),
+                     ('on/home/ok', 'home-device object accepted')]
+            if ver:
+                needs += [('off/ignored_foreign/ok', 'IGNOREd foreign object in one-file-system mode'),
+                          ('off/ignored_through/ok', 'IGNOREd path through a foreign directory in one-file-system mode'),
+                          ('off/ignored_home/ok', 'IGNOREd home-device path'),
+                          ('off/home/fail', 'home-device object rejected in one-file-system mode'),
+                          ('on/foreign/fail', 'foreign object rejected with crossing allowed')]
+            for k, what in needs:
+                if not c.get(f'V/{api}/{k}'):
+                    errs.append(f'vacuity: family V: {api}: never seen: {what}')
+            for label in ('xobj', 'below', 'xsub', 'below2'):
+                if not c.get(f'V_xdev_target/{label}/{api}'):
+                    errs.append(f'vacuity: family V: {api}: no must-raise case for target {label!r}')
+            for st in ('present', 'stale', 'present@sub', 'stale@sub') + (() if ver else ('absent', 'absent@sub')):
+                if not c.get(f'V_xdev_entry/{st}/{api}'):
+                    errs.append(f'vacuity: family V: {api}: no must-raise case with entry state {st!r}')
+            for cls in ('foreign', 'through') if ver else ('through',):
+                if not c.get(f'V_open/{cls}/{api}'):
+                    errs.append(f'vacuity: family V: {api}: no open case of class {cls!r}')
+        for obj in ('foreign_file', 'foreign_dir', 'file_below_foreign_dir'):
+            if not c.get(f'V_xdev_object/{obj}'):
+                errs.append(f'vacuity: family V: no must-raise case for a {obj}')
+        for k in ('V_xdev_with_unrelated_ignore', 'V_loc/sub/xdev', 'V_loc/sub/ok', 'V_loc/sub/fail', 'V_loc/top/fail'):
+            if not c.get(k):
+                errs.append(f'vacuity: family V: never seen: {k}')
+        want_v = 0
+        for n, si, at, kind in v_placements(tier):
+            want_v += sum(1 for _ in v_runs(Model(shapes(n)[si], (None,) * n, names_for(0, n), (),
+                                                  {'at': at, 'kind': kind})))
+        if c.get('family_V_executions', 0) != want_v and not total.capped:
+            errs.append(f'family V ran {c.get("family_V_executions", 0)} executions, re-enumeration gives {want_v}')
+    for fam in ('R', 'U', 'V'):
         if len([k for k in c if k.startswith(f'fam_got/{fam}/')]) < 2 and (fam == 'R' or have_other):
             errs.append(f'vacuity: family {fam} produced fewer than two outcome classes')
     if c.get('budget_exceeded'):
@@ -2239,6 +2729,19 @@ def extra_evidence(total, tier):
                 o: sum(v for k, v in c.items() if k.startswith(f'U_order/{o}/'))
                 for o in ('subm_first', 'foreign_first', 'same_dir')},
             'positions': {k[11:]: v for k, v in sorted(c.items()) if k.startswith('U_position/')},
+        },
+        'family_V': {
+            'executions': c.get('family_V_executions', 0),
+            'placements (n, shape, holder, foreign kind)': len(v_placements(tier)),
+            'apis': list(V_APIS),
+            'targets_of_a_dirsub_placement': {
+                lb: v_target_path(Model((None, 0), (None, None), names_for(0, 2), (), {'at': 1, 'kind': 'dirsub'}), lb)
+                for lb in v_targets(Model((None, 0), (None, None), names_for(0, 2), (), {'at': 1, 'kind': 'dirsub'}))},
+            'per api/allow_xdev/class of the named object/reference outcome': {
+                k[2:]: v for k, v in sorted(c.items()) if k.startswith('V/')},
+            'must_raise_by_target': {k[14:]: v for k, v in sorted(c.items()) if k.startswith('V_xdev_target/')},
+            'must_raise_by_entry_state': {k[13:]: v for k, v in sorted(c.items()) if k.startswith('V_xdev_entry/')},
+            'open (DONT_CARE) by class/api': {k[7:]: v for k, v in sorted(c.items()) if k.startswith('V_open/')},
         },
         'budget': '20*n*n+50 os.scandir calls per execution; use histogram: ' + ', '.join(
             f'{k[11:]}={v}' for k, v in sorted(c.items()) if k.startswith('budget_use_')),
